@@ -125,13 +125,11 @@ def r052(model, rep, ck):
     rep.ob('R05.2', init, 'original_screw_list backed up from the untransformed parameter', ok, msg, line=backup[0].lineno if backup else None)
 
 
-def r053(model, rep, ck):
-    rep.rule('R05.3', 'FK: clamp dominates use on the non-protect path; FKinSpace(home, screws, theta); stored joints and stored '
-                      'pose from the same vector; FKJoint/FKLink prefix slices')
-    arm = ck.arm
-    fk = arm.methods.get('FK')
-    if fk is None:
-        raise AnalysisError('anchor vanished: Arm.FK')
+
+def fk_core(rep, rule, fk):
+    """Arm.FK on every path: FKinSpace(home tool pose, space screws, v) with v the argument itself (only under protect) or thetaProtector(argument);
+    the stored joint vector is made from that same v; the stored tool pose is the kernel's result.  Shared by C05 (R05.3), C07 and C13
+    (their clauses about the state after a solve / the pose for in-limit joints rest on it)."""
     theta = fk.params[1]
     # path summaries of FK (conditional expressions lowered to statements, locals substituted): what reaches the kernel, under which facts
     from ..engine import peval as _pe
@@ -162,12 +160,22 @@ def r053(model, rep, ck):
         pose_ok = pose_ok and len(st_p) == 1 and norm_text(st_p[0][3]) in ('tm(%s)' % kernel, kernel, 'tm(%s).copy()' % kernel)
     if not n_calls:
         raise AnalysisError('Arm.FK: no path reaches an FKinSpace call')
-    rep.ob('R05.3', fk, 'FKinSpace(home tool pose, space screws, theta)', shape_ok,
+    rep.ob(rule, fk, 'FKinSpace(home tool pose, space screws, theta)', shape_ok,
            'FK must evaluate FKinSpace(home tool pose, space screws, theta); got (%s)' % got_args, line=line_c)
-    rep.ob('R05.3', fk, 'clamp dominates the kernel call unless protect', clamp_ok,
+    rep.ob(rule, fk, 'clamp dominates the kernel call unless protect', clamp_ok,
            'on some path FKinSpace receives joints that were not clamped by thetaProtector although protect is false', line=line_c)
-    rep.ob('R05.3', fk, 'self._theta stored from the evaluated vector', theta_ok, 'FK does not store the joint vector it evaluated')
-    rep.ob('R05.3', fk, 'stored tool pose is the FKinSpace result', pose_ok, 'the pose FK stores is not the product-of-exponentials result')
+    rep.ob(rule, fk, 'self._theta stored from the evaluated vector', theta_ok, 'FK does not store the joint vector it evaluated')
+    rep.ob(rule, fk, 'stored tool pose is the FKinSpace result', pose_ok, 'the pose FK stores is not the product-of-exponentials result')
+
+def r053(model, rep, ck):
+    rep.rule('R05.3', 'FK: clamp dominates use on the non-protect path; FKinSpace(home, screws, theta); stored joints and stored '
+                      'pose from the same vector; FKJoint/FKLink prefix slices')
+    arm = ck.arm
+    fk = arm.methods.get('FK')
+    if fk is None:
+        raise AnalysisError('anchor vanished: Arm.FK')
+    theta = fk.params[1]
+    fk_core(rep, 'R05.3', fk)
     # the clamp itself: theta[where(theta < mins)] = mins[where(theta < mins)], same for > maxs; returns theta
     tp = arm.methods.get('thetaProtector')
     if tp is None:
@@ -590,6 +598,23 @@ def r0512(model, rep, ck):
             for st in walk_own(node12):
                 if isinstance(st, ast.Assign) and len(st.targets) == 1 and isinstance(st.targets[0], ast.Name) and is_view(st.value, views):
                     views.add(st.targets[0].id)
+        # the method itself writing INTO such a view (element / slice store, augmented assignment)
+        for st in walk_own(node12):
+            tg = st.targets if isinstance(st, ast.Assign) else ([st.target] if isinstance(st, ast.AugAssign) else [])
+            for t in tg:
+                base = t
+                while isinstance(base, ast.Subscript):
+                    base = base.value
+                if base is not t and isinstance(base, ast.Name) and base.id in views:
+                    n += 1
+                    rep.ob('R05.12', fi, '%s: no store into `%s`, a view of the stored joints' % (name, base.id), False,
+                           '`%s` writes into `%s`, which is (a view of) the arm\'s stored joint vector (%s): the joints change while the reported tool pose, '
+                           'the joint frames and default-argument queries still describe the old configuration - e.g. restart seeds written there '
+                           'remain after a solve that fails' % (src(st)[:60], base.id, name), line=st.lineno)
+                elif isinstance(st, ast.AugAssign) and isinstance(t, ast.Name) and t.id in views:
+                    n += 1
+                    rep.ob('R05.12', fi, '%s: no in-place update of `%s`, a view of the stored joints' % (name, t.id), False,
+                           '`%s` updates `%s` in place, which is (a view of) the arm\'s stored joint vector' % (src(st)[:60], t.id), line=st.lineno)
         for c in walk_own(node12):
             if not isinstance(c, ast.Call):
                 continue
